@@ -198,15 +198,25 @@ namespace
                 case 8: throw std::runtime_error("hgv boom " + std::to_string(op.a));
                 case 11: throw HgvForeign{op.a};
                 case 9:
+                case 12:
                 {
-                    // out-of-band schedule of node b of the child graph owned by sibling nested node a,
-                    // at the child's own (possibly stale) clock
+                    // out-of-band schedule of node b of the child graph owned by sibling nested node a (op 12: of the
+                    // GRANDCHILD graph owned by node 0 of that child), at that graph's own (possibly stale) clock
                     auto sibling = view.graph().node_at((std::size_t)op.a);
                     auto nested  = sibling.as<SingleNestedGraphNodeView>();
                     if (nested.child_graph_value().has_value())
                     {
                         auto child = nested.child_graph();
-                        child.schedule_node((std::size_t)op.b, child.evaluation_time());
+                        if (op.code == 12)
+                        {
+                            auto inner = child.node_at(0).as<SingleNestedGraphNodeView>();
+                            if (inner.child_graph_value().has_value())
+                            {
+                                auto grand = inner.child_graph();
+                                grand.schedule_node((std::size_t)op.b, grand.evaluation_time());
+                            }
+                        }
+                        else { child.schedule_node((std::size_t)op.b, child.evaluation_time()); }
                     }
                     break;
                 }
